@@ -18,7 +18,6 @@ git apply "$SD/patch.diff" || { echo "PATCH DOES NOT APPLY"; exit 2; }
 go build ./... || { echo "DOES NOT BUILD"; exit 2; }
 go test -vet=off -count=1 ./... 2>&1 | grep -E "^(---|FAIL|ok)" | grep -v "^ok" | grep -v -E "TestBasic|TestRedirect|servitor/jtp|^FAIL$" ; echo "existing tests with change: (lines above = unexpected failures)"
 run_demo; echo "demo with change: rc=$? (want non-zero)"; tail -3 /tmp/seed_demo.log
+# run the named checks against the patched worktree (not /repo, which other runs may be using)
+for c in "$@"; do (cd /verif && VERIF_REPO="$WT" ./vcheck run "$c" quick 2>&1 | grep -E "VIOLATION|KNOWN|HARNESS|exhaustive=" | cut -c1-220; echo "check $c exit=${PIPESTATUS[0]}"); done
 git checkout -q -- . ; git clean -fdq
-cd /repo && git apply "$SD/patch.diff" || { echo "PATCH DOES NOT APPLY TO /repo"; exit 2; }
-for c in "$@"; do (cd /verif && ./vcheck run "$c" quick 2>&1 | grep -E "VIOLATION|KNOWN|HARNESS|exhaustive=" | cut -c1-220; echo "check $c exit=${PIPESTATUS[0]}"); done
-cd /repo && git checkout -q -- . && git status --short
